@@ -81,7 +81,9 @@ OptCall(maxIter, fixFirst, verbose, st, np) ==                   \* `verbose` oc
 
 \* ---------- g := Graph.from_g2o(file written by g.to_g2o(file)): the session continues on the re-imported graph ----------
 \* What the file format carries decides the effect (the meaning of the numbers is G2O's business):
-\*  - it has NO field for the `fixed` flag: every vertex of the re-imported graph is free;
+\*  - it has NO field for the `fixed` flag: every vertex of the re-imported graph is free (keep = FALSE).  No listed property speaks about
+\*    flags across a file, so an implementation whose files DO carry them completely (keep = TRUE) is admitted as well; what is excluded
+\*    is a round trip that keeps some flags and drops or invents others;
 \*  - ids, kinds and the ORDER of the vertex list survive; positions of R^n vertices survive bitwise (pose token unchanged), headings may
 \*    be re-wrapped and quaternions re-normalised (np: the pose tokens read back);
 \*  - an edge whose class has no writer (user-defined classes inherit to_g2o() = None) is not in the file: it is dropped, the others keep
@@ -92,23 +94,24 @@ OptCall(maxIter, fixFirst, verbose, st, np) ==                   \* `verbose` oc
 Written(es) == SelectSeq(es, LAMBDA e : e.cls # "custom")
 MustRefuse == \E n \in DOMAIN edges : edges[n].cls = "odo" /\ edges[n].est \in {"R2", "R3"}
 MayRefuse == MustRefuse \/ \E n \in DOMAIN edges : edges[n].cls = "lm"
-ReloadEffect(raised, np, ne) ==
+ReloadEffect(raised, keep, np, ne) ==
   /\ status = "ready"
   /\ IF raised THEN MayRefuse /\ UNCHANGED <<verts, edges, status>>
      ELSE /\ ~MustRefuse
-          /\ verts' = [i \in DOMAIN verts |-> [verts[i] EXCEPT !.fixed = FALSE, !.pose = IF verts[i].kind \in {"R2", "R3"} THEN @ ELSE np[i]]]
+          /\ verts' = [i \in DOMAIN verts |-> [verts[i] EXCEPT !.fixed = IF keep THEN @ ELSE FALSE, !.pose = IF verts[i].kind \in {"R2", "R3"} THEN @ ELSE np[i]]]
           /\ LET w == Written(edges) IN
                edges' = [n \in DOMAIN w |-> [w[n] EXCEPT !.num = ne[n]]]
           /\ status' = status
-Reload(raised, np, ne) == ReloadEffect(raised, np, ne) /\ obs' = [op |-> "Reload", raised |-> raised]
+Reload(raised, keep, np, ne) == ReloadEffect(raised, keep, np, ne) /\ obs' = [op |-> "Reload", raised |-> raised]
 
 Init == verts = <<>> /\ edges = <<>> /\ status = "unbuilt" /\ obs = [op |-> "none"]
 
 \* ---------- properties (checked on bounded instances by MC_GraphSLAM; imposed on recorded executions by Trace_GraphSLAM) ----------
 SameShape == Len(verts') = Len(verts) /\ \A i \in DOMAIN verts : verts'[i].id = verts[i].id /\ verts'[i].kind = verts[i].kind
 \* a vertex that is fixed after a step did not move in that step (every outcome of optimize, every query; nothing is fixed after a reload);
-\* only the user's own SetPose moves a fixed vertex
-FixedFrozen == [][status = "ready" /\ obs'.op # "SetPose" => SameShape /\ \A i \in DOMAIN verts : verts'[i].fixed => verts'[i].pose = verts[i].pose]_vars
+\* only the user's own SetPose moves a fixed vertex (and a file round trip that carried flags may re-wrap / re-normalise its numbers)
+FixedFrozen == [][status = "ready" => /\ SameShape
+                                      /\ obs'.op \notin {"SetPose", "Reload"} => \A i \in DOMAIN verts : verts'[i].fixed => verts'[i].pose = verts[i].pose]_vars
 \* flags are only ever changed by SetFixed, or set (never cleared) on the first vertex by optimize
 FlagsRule == [][status = "ready" /\ obs'.op # "SetFixed" =>
                  \A i \in DOMAIN verts : verts'[i].fixed = verts[i].fixed \/ (obs'.op = "OptCall" /\ i = 1 /\ verts'[i].fixed)
